@@ -1,5 +1,5 @@
 (** * C05 — Parsing keeps declared data and completes ambient/solar production exactly *)
-From Cteepbd Require Import Model.Components Proofs.NormFacts.
+From Cteepbd Require Import Model.Components Proofs.NormFacts Proofs.DataEquiv Proofs.CompleteIdem.
 From Coq Require Import Permutation.
 Open Scope Qc_scope.
 
@@ -58,7 +58,15 @@ Example C05_example :
   | Err _ => False end.
 Proof. vm_compute. reflexivity. Qed.
 
+(** "Normalizing an already normalized set changes nothing", completion part: completing a set that has just been
+    completed (all value vectors of one length) adds nothing — with the production added the first time, the uncovered
+    use of every system is zero at every step *)
+Theorem C05_completion_twice_changes_nothing : forall n cr src data,
+  source_of_carrier cr = Some src -> wf n data -> complete cr (complete cr data) = complete cr data.
+Proof. intros. eapply complete_twice; eassumption. Qed.
+
 Print Assumptions C05_keeps.
+Print Assumptions C05_completion_twice_changes_nothing.
 Print Assumptions C05_keeps_meta_needs.
 Print Assumptions C05_appends.
 Print Assumptions C05_completion_value.
